@@ -13,7 +13,7 @@ Definition case := (input * obs)%type.
 
 (* the model's transfer into an empty remote: copy the missing closure, then set the refs *)
 Definition model_remote (i : input) : option store :=
-  match missing (i_universe i) [] (i_heads i) with Some need => Some need | None => None end.
+  pull_need (i_universe i) [] (i_heads i).
 
 (* the model predicts: the remote holds exactly the closure of the heads, and every other observable is fine *)
 Definition model_complete (i : input) : bool :=
